@@ -93,6 +93,7 @@ PLANS["C14"]["components"] = dict(real=REAL_L + ["apps/nsqlookupd: program.Start
 # application stage: the real program.Init()/Start() of apps/nsqd configured by flags and a TOML file
 APP_NOTE = "; a share of the budget runs the application world: the real program.Init()/Start() of apps/nsqd (flag set, TOML config file, config.Validate, options.Resolve, nsqd.New, LoadMetadata, Main) is given %s as command-line flags, as config-file keys, or both with the flags winning, and the daemon must enforce exactly the configured values"
 for _p, _share, _what in (("C09", 0.1, "its limits (max-msg-size, max-body-size, max-rdy-count, max-req-timeout, max-heartbeat-interval, max-output-buffer-size/-timeout, max-msg-timeout, max-deflate-level; each probed at the value and one past it)"),
+                          ("C04", 0.05, "msg-timeout, max-msg-timeout and max-req-timeout (an unanswered message comes back at msg-timeout, not 1 ms earlier and within three scan intervals; a REQ beyond max-req-timeout is released at max-req-timeout)"),
                           ("C11", 0.15, "its TLS requirement (true/false/tcp-https/1/0, client certificate policy), HTTPS listener and auth server (probed with a plaintext PUB and a plaintext HTTP publish)")):
     _st = PLANS[_p]["stages"]
     for _s in _st:
@@ -118,7 +119,7 @@ PLANS["C20"] = dict(stages=[dict(bin="to_nsq", world="tonsq", prop="C20", share=
 
 WORLD_BIN = {"lookupdapp": "nsqlookupd", "nsqdapp": "nsqd", "adminapp": "nsqadmin", "tonsq": "to_nsq", "nsq2nsq": "nsq_to_nsq", "nsq2http": "nsq_to_http", "tofile": "nsq_to_file", "policy": "world", "queue": "world", "lookupd": "world", "proto": "world", "meta": "world", "cluster": "world", "admin": "world"}
 SELFTEST_WORLDS = [("queue", "ALL"), ("queue", "C08"), ("queue", "C05"), ("queue", "C12"), ("lookupd", "C14"), ("lookupd", "C15"), ("proto", "C09"), ("proto", "C10"),
-                   ("policy", "C11"), ("meta", "C06"), ("cluster", "C16"), ("admin", "C17"), ("admin", "C18"), ("adminapp", "C17"), ("lookupdapp", "C14"), ("nsqdapp", "C09"), ("nsqdapp", "C11"), ("tofile", "C19"), ("tonsq", "C20"), ("nsq2nsq", "C20"), ("nsq2http", "C20")]
+                   ("policy", "C11"), ("meta", "C06"), ("cluster", "C16"), ("admin", "C17"), ("admin", "C18"), ("adminapp", "C17"), ("lookupdapp", "C14"), ("nsqdapp", "C09"), ("nsqdapp", "C11"), ("nsqdapp", "C04"), ("tofile", "C19"), ("tonsq", "C20"), ("nsq2nsq", "C20"), ("nsq2http", "C20")]
 ALL_TARGETS = ["world", "world_race", "nsq_to_file", "to_nsq", "nsq_to_nsq", "nsq_to_http", "nsqadmin", "nsqd", "nsqlookupd"]
 
 SIMNOTE = ("assumes the trusted base of DESIGN.md 6: Go 1.26.8 synctest + five runtime patches, the two-rule AST rewriter, simnet/simos fidelity, "
